@@ -173,16 +173,19 @@ func (e *Engine) buildUnit(name string) (res *UnitResult) {
 				continue
 			}
 			a := a
+			vc.atMatched[fmt.Sprintf("%s:%d", a.C.File, a.C.Line)] = true
 			vc.safeEval(fmt.Sprintf("%s:%d at return", a.C.File, a.C.Line), func() {
 				// private clause: may mention the function's locals at the return
-				lenv := fc.env(r.st, r.blk)
+				// at-return clauses are evaluated at the return statement itself, i.e.
+				// before the deferred calls run
+				lenv := fc.env(r.preSt, r.blk)
 				lenv.atInstr = r.instr
 				for k, v := range env.vars {
 					if _, isParam := fc.entryEnv[k]; !isParam {
 						lenv.vars[k] = v
 					}
 				}
-				vc.oblige(r.st, "assert", a.C.Label, fmt.Sprintf("at return#%d:%s", r.ord, a.C.Label), e.pos(r.pos), lenv.evalBool(a.C.E))
+				vc.oblige(r.preSt, "assert", a.C.Label, fmt.Sprintf("at return#%d:%s", r.ord, a.C.Label), e.pos(r.pos), lenv.evalBool(a.C.E))
 			})
 		}
 	}
@@ -190,7 +193,7 @@ func (e *Engine) buildUnit(name string) (res *UnitResult) {
 	// every call anchor of the contract must have matched a call site
 	if c != nil && vc.err == nil {
 		for _, a := range c.Ats {
-			if (a.Kind == "call" || a.Kind == "select" || a.Kind == "recv") && !vc.atMatched[fmt.Sprintf("%s:%d", a.C.File, a.C.Line)] {
+			if (a.Kind == "call" || a.Kind == "select" || a.Kind == "recv" || a.Kind == "return") && !vc.atMatched[fmt.Sprintf("%s:%d", a.C.File, a.C.Line)] {
 				ord := "(any)"
 				if a.Ord >= 0 {
 					ord = fmt.Sprintf("#%d", a.Ord)
